@@ -145,6 +145,10 @@ pub struct SaleWorld {
     /// Merkle mint arguments of the step being run (stage, proof hashes, allocation):
     /// consulted by `wl_view` to ask the whitelist the proof-form HasMember question
     pub proof_ctx: Option<(Option<u32>, Vec<String>, Option<u32>)>,
+    /// changes of tracked balances / supply caused by activity that is not a minter step
+    /// (the creation fee of a whitelist instantiated for Op::SetWhitelist): subtracted from
+    /// the balances shown to the model, which only follows the minter's own money flows
+    pub ext_drift: BTreeMap<(String, String), i128>,
 }
 
 const S: u64 = 1_000_000_000;
@@ -246,6 +250,7 @@ impl SaleWorld {
             initial_supply: BTreeMap::new(),
             wl_code,
             proof_ctx: None,
+            ext_drift: BTreeMap::new(),
         };
         let denom = cfg.fp.denom.clone();
         if cfg.wl != WlKind::None {
@@ -602,12 +607,14 @@ impl SaleWorld {
             for d in [NATIVE, IBC] {
                 let id = self.addrs.id(&a);
                 let did = self.denoms.id(d);
-                items.push(format!("({}, {}, {})", id, did, chain::balance(&self.app, &a, d)));
+                let drift = self.ext_drift.get(&(a.clone(), d.to_string())).copied().unwrap_or(0);
+                items.push(format!("({}, {}, {})", id, did, chain::balance(&self.app, &a, d) as i128 - drift));
             }
         }
         for d in [NATIVE, IBC] {
             let did = self.denoms.id(d);
-            let burned = self.initial_supply[d] - chain::supply(&self.app, d);
+            let drift = self.ext_drift.get(&("#supply".to_string(), d.to_string())).copied().unwrap_or(0);
+            let burned = (self.initial_supply[d] - chain::supply(&self.app, d)) as i128 + drift;
             items.push(format!("(5, {}, {})", did, burned));
         }
         coq_list(&items)
@@ -781,7 +788,7 @@ impl SaleWorld {
         let fp = self.fp_coq();
         let wv = self.cur_wl_view(&who);
         let before_digest = chain::storage_digest(&self.app, &self.minter);
-        let before_bal = self.balances_raw();
+        let mut before_bal = self.balances_raw();
         let before_tokens = self.num_tokens_collection();
         let sender_id = self.addrs.id(&who);
         let minter_id = self.addrs.id(self.minter.as_str());
@@ -834,6 +841,15 @@ impl SaleWorld {
                 let lim = self.cfg.wl_limit;
                 match self.make_whitelist(k, &[(*start_in, *end_in)], *price, denom, lim, None) {
                     Ok(a) => {
+                        // the whitelist's creation fee is paid outside the minter step
+                        let after_wl = self.balances_raw();
+                        for (k2, v1) in &after_wl {
+                            let v0 = before_bal.get(k2).copied().unwrap_or(0);
+                            if *v1 != v0 {
+                                *self.ext_drift.entry(k2.clone()).or_insert(0) += *v1 as i128 - v0 as i128;
+                            }
+                        }
+                        before_bal = after_wl;
                         new_view = self.wl_view(&a, &who);
                         let r = self.exec_minter(&who, &E::SetWhitelist { whitelist: a.to_string() }, &funds);
                         if r.is_ok() {
